@@ -109,7 +109,10 @@ def decorate(t, rng):
 # ---------------------------------------------------------------- formatting variants
 
 def variants(src: str):
-    out = ["(" + src + ")", "(\n    " + src + "  # a comment\n)", "   " + src.replace(",", " ,\t") if "'" not in src and '"' not in src else "((" + src + "))"]
+    out = ["(" + src + ")", "(\n    " + src + "  # a comment\n)", "((" + src + "\n))", src + "   \t",
+           "(" + src + ")  # trailing comment"]
+    if "'" not in src and '"' not in src:
+        out.append(src.replace(",", " ,\t").replace("(", "( ").replace("[", "[  "))
     try:
         toks = [t.string for t in tokenize.generate_tokens(io.StringIO(src).readline)
                 if t.type not in (tokenize.NEWLINE, tokenize.NL, tokenize.ENDMARKER, tokenize.INDENT, tokenize.DEDENT, tokenize.COMMENT)]
